@@ -345,6 +345,8 @@ def join(a: Val, b: Val) -> Val:
                 base = o.split("|", 1)[0]
                 if base not in x_.data and base in y_.data:
                     data = data | {o + "|path"}
+    # must-dependence: what reaches the value on EVERY joined path (valid right after the merge; plain operations drop the tag)
+    tags["must_data"] = frozenset(a.tags.get("must_data", a.data)) & frozenset(b.tags.get("must_data", b.data))
     return Val(const, data, a.shp | b.shp, a.ctrl | b.ctrl, join_shape(a.shape, b.shape), u,
                a.frame if a.frame == b.frame else None, join_sign(a.sign, b.sign),
                join_fresh(a.fresh, b.fresh), a.refs | b.refs, items,
